@@ -1,6 +1,6 @@
 from __future__ import annotations
 
-from typing import TYPE_CHECKING
+from typing import TYPE_CHECKING, Any
 
 from ase.units import fs
 
@@ -48,6 +48,24 @@ class Verlet(BaseIntegrator):
         self.dt = dt * fs
         self.max_steps = max_steps
         self.apply_constraints = apply_constraints
+
+    def to_dict(self) -> dict[str, Any]:
+        """
+        Convert the `Verlet` integrator to a dictionary.
+
+        Returns
+        -------
+        dict[str, Any]
+            A dictionary representation of the `Verlet` integrator.
+        """
+        return {
+            **super().to_dict(),
+            "kwargs": {
+                "dt": self.dt / fs,
+                "max_steps": self.max_steps,
+                "apply_constraints": self.apply_constraints,
+            },
+        }
 
     def integrate(self, context: DisplacementContext) -> None:
         """
